@@ -1,9 +1,551 @@
 /-
-  QEModel.C14 — executable model for property C14 (stub; to be filled in).
+  QEModel.C14 — one payoff convention across all views of a game.
+  Mirrors quantecon/game_theory/normal_form_game.py (Player, NormalFormGame),
+  game_converters.py (GAM dump / parse: order of the numbers), polymatrix_game.py
+  (get_player / to_nfg: broadcast sum), logitdyn.py (constructor: read-only).
+
+  An n-d array is `Arr α` = shape + flat C-order data. Every NumPy operation is a
+  `tab newShape (fun idx => old.get (index map idx))`; the in-place write of
+  `__setitem__` is `List.set` on the flat data. A game is the list of its
+  players' arrays (player i's array has its own action first, then the others in
+  cyclic order — shape `rotL i nums`).
 -/
 import QEModel.Base
 namespace QE.C14
 
-def handle (_toks : List String) : String := "bad-op"
+/-! ### n-d arrays -/
+
+def prod : List Nat → Nat
+  | [] => 1
+  | n :: s => n * prod s
+
+/-- C-order (row-major) offset of a multi-index -/
+def flatIndex : List Nat → List Nat → Nat
+  | _ :: s, a :: r => a * prod s + flatIndex s r
+  | _, _ => 0
+
+/-- all multi-indices of a shape in C order (last index fastest) -/
+def allIdx : List Nat → List (List Nat)
+  | [] => [[]]
+  | n :: s => (List.range n).flatMap fun a => (allIdx s).map (a :: ·)
+
+def inBounds : List Nat → List Nat → Bool
+  | [], [] => true
+  | n :: s, a :: r => decide (a < n) && inBounds s r
+  | _, _ => false
+
+structure Arr (α : Type) where
+  shape : List Nat
+  data : List α
+deriving Repr, BEq
+
+instance {α} : Inhabited (Arr α) := ⟨⟨[], []⟩⟩
+
+namespace Arr
+variable {α : Type}
+
+def get [Zero α] (A : Arr α) (idx : List Nat) : α := A.data.getD (flatIndex A.shape idx) 0
+
+def tab (shape : List Nat) (f : List Nat → α) : Arr α := ⟨shape, (allIdx shape).map f⟩
+
+/-- `numpy.transpose(A, perm)`: result axis `k` is source axis `perm[k]`; the source index `c`
+    of result index `b` has `c[perm[k]] = b[k]`. -/
+def srcIndex (perm : List Nat) (b : List Nat) : List Nat :=
+  (List.range perm.length).map fun a => b.getD (perm.idxOf a) 0
+
+def transpose [Zero α] (A : Arr α) (perm : List Nat) : Arr α :=
+  tab (perm.map fun k => A.shape.getD k 0) (fun b => A.get (srcIndex perm b))
+
+/-- `A.take(i, axis=-1)` -/
+def takeLast [Zero α] (A : Arr α) (i : Nat) : Arr α :=
+  tab A.shape.dropLast (fun idx => A.get (idx ++ [i]))
+
+/-- `A.dot(p)` for a vector `p` (sum over the last axis) -/
+def dotLast [Zero α] [Add α] [Mul α] (A : Arr α) (p : List α) : Arr α :=
+  tab A.shape.dropLast (fun idx =>
+    (List.range (A.shape.getLastD 0)).foldl (fun acc b => acc + A.get (idx ++ [b]) * p.getD b 0) 0)
+
+/-- the index read by `np.delete(A, a, axis)` at result index `idx` -/
+def bump (ax a : Nat) (idx : List Nat) : List Nat :=
+  idx.set ax (if a ≤ idx.getD ax 0 then idx.getD ax 0 + 1 else idx.getD ax 0)
+
+/-- `np.delete(A, a, axis)` for one in-range `a` -/
+def deleteAxis [Zero α] (A : Arr α) (ax a : Nat) : Arr α :=
+  tab (A.shape.set ax (A.shape.getD ax 0 - 1)) (fun idx => A.get (bump ax a idx))
+
+/-- `A.ravel(order='F')` -/
+def ravelF [Zero α] (A : Arr α) : List α :=
+  (allIdx A.shape.reverse).map fun r => A.get r.reverse
+
+/-- `data.reshape(shape, order='F')` -/
+def reshapeF [Zero α] (data : List α) (shape : List Nat) : Arr α :=
+  tab shape (fun idx => data.getD (flatIndex shape.reverse idx.reverse) 0)
+
+end Arr
+
+/-! ### profiles, rotation -/
+
+/-- `tuple(p[i:]) + tuple(p[:i])` -/
+def rotL {β : Type} (i : Nat) (l : List β) : List β := l.drop i ++ l.take i
+
+/-- `(*range(j, N), *range(j))` -/
+def rotPerm (N j : Nat) : List Nat := List.range' j (N - j) ++ List.range j
+
+/-! ### actions, errors -/
+
+inductive Act (α : Type) where
+  | pure (a : Nat)
+  | mixed (p : List α)
+deriving Repr
+
+inductive Err where
+  | index | value | type | axis
+deriving Repr, BEq
+
+def Err.show : Err → String
+  | .index => "ERR:IndexError"
+  | .value => "ERR:ValueError"
+  | .type => "ERR:TypeError"
+  | .axis => "ERR:AxisError"
+
+/-! ### Player -/
+
+section player
+variable {α : Type} [Zero α] [Add α] [Sub α] [Mul α] [LT α] [LE α] [DecidableLT α] [DecidableLE α]
+
+/-- `reduce_last_player(payoff_array, action)` -/
+def reduceLast (A : Arr α) : Act α → Arr α
+  | .pure a => A.takeLast a
+  | .mixed p => A.dotLast p
+
+/-- `Player.payoff_vector`: the last axis is reduced repeatedly, last opponent first
+    (`for i in reversed(range(num_opponents))`). With no opponent it is the array itself. -/
+def payoffVector (A : Arr α) (opps : List (Act α)) : Arr α :=
+  opps.foldr (fun act acc => reduceLast acc act) A
+
+/-- is `act` acceptable for reducing the last axis of `A`? (`take` bounds / `dot` alignment) -/
+def actOk (n : Nat) : Act α → Option Err
+  | .pure a => if a < n then none else some .index
+  | .mixed p => if p.length = n then none else some .value
+
+/-- checked version: the error the code raises first, if any -/
+def payoffVectorC (A : Arr α) (opps : List (Act α)) : Except Err (Arr α) :=
+  opps.foldr (fun act acc => do
+    let B ← acc
+    match actOk (B.shape.getLastD 0) act with
+    | some e => throw e
+    | none => pure (reduceLast B act)) (pure A)
+
+/-- `ndarray.max()` of a non-empty vector -/
+def maxList (l : List α) : α := l.foldl (fun m x => if m < x then x else m) (l.headD 0)
+
+/-- `np.where(v >= v.max() - tol)[0]` -/
+def bestResponses (v : List α) (tol : α) : List Nat :=
+  (List.range v.length).filter fun a => decide (maxList v - tol ≤ v.getD a 0)
+
+/-- `np.dot(x, v)` -/
+def dot (x v : List α) : α :=
+  (List.range v.length).foldl (fun acc b => acc + x.getD b 0 * v.getD b 0) 0
+
+/-- `Player.is_best_response` on a computed payoff vector -/
+def isBestResponseV (v : List α) (own : Act α) (tol : α) : Bool :=
+  match own with
+  | .pure a => decide (maxList v - tol ≤ v.getD a 0)
+  | .mixed x => decide (maxList v - tol ≤ dot x v)
+
+/-- `Player.is_dominated` for a player without opponents -/
+def isDominated0 (v : List α) (a : Nat) (tol : α) : Bool :=
+  decide (v.getD a 0 + tol < maxList v)
+
+/-- some other pure action is better than `a` by more than `tol` against every opponent profile
+    (the LP-free sufficient condition for `is_dominated`) -/
+def isDominatedByPure (A : Arr α) (a : Nat) (tol : α) : Bool :=
+  (List.range (A.shape.headD 0)).any fun b =>
+    b != a && (allIdx A.shape.tail).all fun r => decide (A.get (a :: r) + tol < A.get (b :: r))
+
+/-- certificate check for the value `v` of the zero-sum game `D = A[others] - A[a]`
+    (rows: own actions other than `a`, columns: opponent profiles): `x` guarantees at least `v`
+    against every column, `y` concedes at most `v` against every row. -/
+def domCertOk (A : Arr α) (a : Nat) (x y : List α) (v : α) : Bool :=
+  let rows := (List.range (A.shape.headD 0)).filter (· != a)
+  let cols := allIdx A.shape.tail
+  let d := fun (b : Nat) (r : List Nat) => A.get (b :: r) - A.get (a :: r)
+  (cols.all fun r =>
+    decide (v ≤ (List.range rows.length).foldl (fun acc k => acc + x.getD k 0 * d (rows.getD k 0) r) 0)) &&
+  (rows.all fun b =>
+    decide ((List.range cols.length).foldl (fun acc k => acc + d b (cols.getD k []) * y.getD k 0) 0 ≤ v))
+
+end player
+
+/-! ### NormalFormGame -/
+
+structure Game (α : Type) where
+  players : List (Arr α)
+deriving Repr
+
+namespace Game
+variable {α : Type} [Zero α]
+
+def N (g : Game α) : Nat := g.players.length
+def nums (g : Game α) : List Nat := g.players.map fun p => p.shape.headD 0
+def player (g : Game α) (i : Nat) : Arr α := g.players.getD i default
+
+/-- `NormalFormGame(players)`: shape consistency check of `__init__` (dtype check not modelled) -/
+def ofPlayers (ps : List (Arr α)) : Except Err (Game α) :=
+  let s0 := (ps.headD default).shape
+  if (List.range ps.length).all fun i =>
+      i == 0 || (((ps.getD i default).shape.length == ps.length) &&
+                 ((ps.getD i default).shape == rotL i s0))
+  then .ok ⟨ps⟩ else .error .value
+
+/-- `Player(payoff_array)`: at least one action everywhere -/
+def playerOk (A : Arr α) : Bool := A.shape.length != 0 && prod A.shape != 0
+
+/-- `NormalFormGame(nums)` with an array of integers: all-zero payoffs -/
+def zeros (nums : List Nat) : Game α :=
+  ⟨(List.range nums.length).map fun i => Arr.tab (rotL i nums) (fun _ => 0)⟩
+
+/-- `NormalFormGame(data)` with a payoff profile array of shape `nums ++ [N]`
+    (`data.take(i, axis=-1).transpose((*range(i, N), *range(i)))`) -/
+def ofProfileArray (D : Arr α) : Except Err (Game α) :=
+  let Nn := D.shape.length - 1
+  if D.shape.getLastD 0 != Nn then .error .value
+  else .ok ⟨(List.range Nn).map fun i => (D.takeLast i).transpose (rotPerm Nn i)⟩
+
+/-- symmetric two-player game from a square matrix -/
+def ofSquare (D : Arr α) : Except Err (Game α) :=
+  if D.shape.getD 0 0 != D.shape.getD 1 0 then .error .value else .ok ⟨[D, D]⟩
+
+/-- `payoff_profile_array`: `[..., i] = players[i].payoff_array.transpose((*range(N-i, N), *range(N-i)))` -/
+def profileArray (g : Game α) : Arr α :=
+  let ts := (List.range g.N).map fun i => (g.player i).transpose (rotPerm g.N (g.N - i))
+  Arr.tab ((g.player 0).shape ++ [g.N]) (fun bi =>
+    (ts.getD (bi.getLastD 0) default).get bi.dropLast)
+
+/-- `g[profile]` (N ≥ 2): `players[i].payoff_array[profile[i:] + profile[:i]]` -/
+def getItem (g : Game α) (prof : List Nat) : List α :=
+  (List.range g.N).map fun i => (g.player i).get (rotL i prof)
+
+/-- `g[profile] = vals`: one cell of each player's array is overwritten -/
+def setItem (g : Game α) (prof : List Nat) (vals : List α) : Game α :=
+  ⟨(List.range g.N).map fun i =>
+    let A := g.player i
+    ⟨A.shape, A.data.set (flatIndex A.shape (rotL i prof)) (vals.getD i 0)⟩⟩
+
+/-- axis of player `i`'s array that belongs to player `pidx`: NumPy's normalisation of
+    `player_idx - i` -/
+def normAxis (ax : Int) (nd : Nat) : Option Nat :=
+  if 0 ≤ ax ∧ ax < nd then some ax.toNat
+  else if -(nd : Int) ≤ ax ∧ ax < 0 then some (ax + nd).toNat
+  else none
+
+/-- `delete_action(player_idx, action)` after the negative-index adjustment of `player_idx`,
+    `action` already normalised to `0 ≤ action`. -/
+def deleteAction (g : Game α) (pidx : Int) (a : Nat) : Except Err (Game α) := do
+  let ps ← (List.range g.N).mapM fun i =>
+    let A := g.player i
+    match normAxis (pidx - i) A.shape.length with
+    | none => Except.error Err.axis
+    | some ax =>
+      if a < A.shape.getD ax 0 then
+        let B := A.deleteAxis ax a
+        if playerOk B then Except.ok B else Except.error Err.value
+      else Except.error Err.index
+  ofPlayers ps
+
+/-- opponents' actions as seen by player `i` in `is_nash` -/
+def oppsOf (N i : Nat) {β : Type} (prof : List β) : List β :=
+  if N = 2 then (prof.drop (1 - i)).take 1
+  else prof.drop (i + 1) ++ prof.take i
+
+variable [Add α] [Sub α] [Mul α] [LT α] [LE α] [DecidableLT α] [DecidableLE α]
+
+/-- `is_nash` on in-range profiles -/
+def isNash (g : Game α) (prof : List (Act α)) (tol : α) : Bool :=
+  (List.range g.N).all fun i =>
+    isBestResponseV (payoffVector (g.player i) (oppsOf g.N i prof)).data
+      (match prof[i]? with | some a => a | none => .pure 0) tol
+
+end Game
+
+/-! ### GAM: order of the numbers in the file -/
+
+section gam
+variable {α : Type} [Zero α]
+
+/-- payoff numbers written by `GAMWriter._dump`, player by player:
+    `payoff_array.transpose((*range(N-i, N), *range(N-i))).ravel(order='F')` -/
+def gamPayoffs (g : Game α) : List (List α) :=
+  (List.range g.N).map fun i => ((g.player i).transpose (rotPerm g.N (g.N - i))).ravelF
+
+/-- `GAMReader._parse` after tokenisation: `N`, `nums`, all payoff numbers -/
+def parseGam (nums : List Nat) (payoffs : List α) : Except Err (Game α) :=
+  let Nn := nums.length
+  let na := prod nums
+  if payoffs.length != Nn * na then .error .value
+  else
+    let ps := (List.range Nn).map fun i =>
+      (Arr.reshapeF ((payoffs.drop (i * na)).take na) nums).transpose (rotPerm Nn i)
+    if ps.all Game.playerOk then Game.ofPlayers ps else .error .value
+
+end gam
+
+/-! ### polymatrix → normal form (`PolymatrixGame.get_player`, `to_nfg`) -/
+
+section poly
+variable {α : Type} [Zero α] [Add α]
+
+/-- `pm i j` is the matrix of the pair `(i, j)` as a flat row-major list with `nums[j]` columns.
+    Player `i`'s array entry at `(a, b_1, …, b_{N-1})` is `Σ_j pm[(i, opps[j])][a, b_j]`,
+    added in the order `j = 0, 1, …` starting from the integer `0` of Python's `sum`. -/
+def polyPlayer (nums : List Nat) (pm : Nat → Nat → List α) (i : Nat) : Arr α :=
+  let Nn := nums.length
+  let opps := rotL (i + 1) (List.range Nn) |>.take (Nn - 1)
+  Arr.tab (rotL i nums) (fun idx =>
+    (List.range (Nn - 1)).foldl (fun acc j =>
+      let o := opps.getD j 0
+      acc + (pm i o).getD (idx.getD 0 0 * nums.getD o 0 + idx.getD (j + 1) 0) 0) 0)
+
+def ofPolymatrix (nums : List Nat) (pm : Nat → Nat → List α) : Game α :=
+  ⟨(List.range nums.length).map (polyPlayer nums pm)⟩
+
+end poly
+
+/-! ### the op state machine -/
+
+inductive Op (α : Type) where
+  | get (prof : List Int)
+  | set (prof : List Int) (vals : List α)
+  | del (pidx : Int) (action : Int)
+  | pv (i : Nat) (opps : List (Act α))
+  | br (i : Nat) (opps : List (Act α)) (tol : α) (pert : Option (List α))
+  | isbr (i : Nat) (own : Act α) (opps : List (Act α)) (tol : α)
+  | nash (prof : List (Act α)) (tol : α)
+  | dom0 (i : Nat) (a : Nat) (tol : α)
+  | dompure (i : Nat) (a : Nat) (tol : α)
+  | domcert (i : Nat) (a : Nat) (tol : α) (x y : List α) (v : α)
+  | profarr
+  | reprof
+  | replayers
+  | gam
+  | logit
+  | polyrt
+
+inductive Out (α : Type) where
+  | none
+  | vals (l : List α)
+  | idxs (l : List Nat)
+  | bool (b : Bool)
+  | err (e : Err)
+  | gamOut (nums : List Nat) (l : List (List α))
+
+/-- NumPy integer indexing: `-n ≤ a < n`, negative counts from the end -/
+def normIdx (n : Nat) (a : Int) : Option Nat :=
+  if 0 ≤ a ∧ a < n then some a.toNat
+  else if -(n : Int) ≤ a ∧ a < 0 then some (a + n).toNat
+  else none
+
+def normIdxs : List Nat → List Int → Option (List Nat)
+  | [], [] => some []
+  | n :: s, a :: r => do
+    let x ← normIdx n a
+    let rest ← normIdxs s r
+    pure (x :: rest)
+  | _, _ => none
+
+section step
+variable {α : Type} [Zero α] [Add α] [Sub α] [Mul α] [LT α] [LE α] [DecidableLT α] [DecidableLE α]
+
+def addPert (v : List α) : Option (List α) → List α
+  | none => v
+  | some p => (List.range v.length).map fun a => v.getD a 0 + p.getD a 0
+
+/-- one call on the game; returns the new current game and the call's result.
+    Only `set` (in place), `del`, `reprof`, `replayers`, `gam` (which return new games that
+    become the current one) can produce a different game; every other op returns `g` itself. -/
+def step (g : Game α) : Op α → Game α × Out α
+  | .get prof =>
+    if g.N = 1 then
+      match prof with
+      | [a] => match normIdx ((g.player 0).shape.headD 0) a with
+        | some x => (g, .vals [(g.player 0).get [x]])
+        | none => (g, .err .index)
+      | _ => (g, .err .type)
+    else if prof.length ≠ g.N then (g, .err .index)
+    else match normIdxs (g.player 0).shape prof with
+      | some p => (g, .vals (g.getItem p))
+      | none => (g, .err .index)
+  | .set prof vals =>
+    if g.N = 1 then
+      match prof, vals with
+      | [a], [v] => match normIdx ((g.player 0).shape.headD 0) a with
+        | some x => (g.setItem [x] [v], .none)
+        | none => (g, .err .index)
+      | _, _ => (g, .err .type)
+    else if prof.length ≠ g.N then (g, .err .index)
+    else if vals.length ≠ g.N then (g, .err .value)
+    else match normIdxs (g.player 0).shape prof with
+      | some p => (g.setItem p vals, .none)
+      | none => (g, .err .index)
+  | .del pidx action =>
+    let pidx' : Int := if -(g.N : Int) ≤ pidx ∧ pidx < 0 then pidx + g.N else pidx
+    match Game.normAxis pidx' g.N with
+    | none => (g, .err .axis)
+    | some ax =>
+      match normIdx ((g.player 0).shape.getD ax 0) action with
+      | none => (g, .err .index)
+      | some a =>
+        match g.deleteAction pidx' a with
+        | .ok g' => (g', .none)
+        | .error e => (g, .err e)
+  | .pv i opps =>
+    match payoffVectorC (g.player i) opps with
+    | .ok v => (g, .vals v.data)
+    | .error e => (g, .err e)
+  | .br i opps tol pert =>
+    match payoffVectorC (g.player i) opps with
+    | .ok v => (g, .idxs (bestResponses (addPert v.data pert) tol))
+    | .error e => (g, .err e)
+  | .isbr i own opps tol =>
+    match payoffVectorC (g.player i) opps with
+    | .ok v => (g, .bool (isBestResponseV v.data own tol))
+    | .error e => (g, .err e)
+  | .nash prof tol => (g, .bool (g.isNash prof tol))
+  | .dom0 i a tol => (g, .bool (isDominated0 (g.player i).data a tol))
+  | .dompure i a tol => (g, .bool (isDominatedByPure (g.player i) a tol))
+  | .domcert i a tol x y v =>
+    if domCertOk (g.player i) a x y v then (g, .bool (decide (tol < v))) else (g, .err .value)
+  | .profarr => (g, .vals g.profileArray.data)
+  | .reprof =>
+    match Game.ofProfileArray g.profileArray with
+    | .ok g' => (g', .none)
+    | .error e => (g, .err e)
+  | .replayers =>
+    match Game.ofPlayers g.players with
+    | .ok g' => (g', .none)
+    | .error e => (g, .err e)
+  | .gam =>
+    let toks := gamPayoffs g
+    match parseGam g.nums toks.flatten with
+    | .ok g' => (g', .gamOut g.nums toks)
+    | .error e => (g, .err e)
+  | .logit => (g, .none)
+  | .polyrt => (g, .none)
+
+/-- a whole history: the results and the game after every call -/
+def run (g : Game α) : List (Op α) → List (Out α × Game α)
+  | [] => []
+  | op :: rest => let r := step g op; (r.2, r.1) :: run r.1 rest
+
+end step
+
+/-! ### line protocol -/
+
+open QE
+
+def parseAct? (s : String) : Option (Act Rat) :=
+  match s.toList with
+  | 'p' :: r => (String.ofList r).toNat?.map Act.pure
+  | 'm' :: r => (parseList? parseRat? (String.ofList r)).map Act.mixed
+  | _ => none
+
+def parseActs? (s : String) : Option (List (Act Rat)) :=
+  if s = "-" ∨ s = "" then some [] else (s.splitOn ";").mapM parseAct?
+
+def parseOptRats? (s : String) : Option (Option (List Rat)) :=
+  if s = "none" then some none else (parseList? parseRat? s).map some
+
+def parseOp? (s : String) : Option (Op Rat) :=
+  match s.splitOn ":" with
+  | ["get", p] => (parseList? parseInt? p).map Op.get
+  | ["set", p, v] => do
+    let p ← parseList? parseInt? p
+    let v ← parseList? parseRat? v
+    pure (Op.set p v)
+  | ["del", p, a] => do pure (Op.del (← parseInt? p) (← parseInt? a))
+  | ["pv", i, o] => do pure (Op.pv (← parseNat? i) (← parseActs? o))
+  | ["br", i, o, t, pert] => do
+    pure (Op.br (← parseNat? i) (← parseActs? o) (← parseRat? t) (← parseOptRats? pert))
+  | ["isbr", i, own, o, t] => do
+    pure (Op.isbr (← parseNat? i) (← parseAct? own) (← parseActs? o) (← parseRat? t))
+  | ["nash", p, t] => do pure (Op.nash (← parseActs? p) (← parseRat? t))
+  | ["dom0", i, a, t] => do pure (Op.dom0 (← parseNat? i) (← parseNat? a) (← parseRat? t))
+  | ["dompure", i, a, t] => do pure (Op.dompure (← parseNat? i) (← parseNat? a) (← parseRat? t))
+  | ["domcert", i, a, t, x, y, v] => do
+    pure (Op.domcert (← parseNat? i) (← parseNat? a) (← parseRat? t)
+      (← parseList? parseRat? x) (← parseList? parseRat? y) (← parseRat? v))
+  | ["profarr"] => some Op.profarr
+  | ["reprof"] => some Op.reprof
+  | ["replayers"] => some Op.replayers
+  | ["gam"] => some Op.gam
+  | ["logit"] => some Op.logit
+  | ["polyrt"] => some Op.polyrt
+  | _ => none
+
+def showArr (A : Arr Rat) : String :=
+  showList toString A.shape ++ "/" ++ showList showRat A.data
+
+def showGame (g : Game Rat) : String :=
+  if g.players.isEmpty then "-" else ";".intercalate (g.players.map showArr)
+
+def showOut : Out Rat → String
+  | .none => "-"
+  | .vals l => "v" ++ showList showRat l
+  | .idxs l => "i" ++ showList toString l
+  | .bool b => "b" ++ showBool b
+  | .err e => e.show
+  | .gamOut nums l => "g" ++ showList toString nums ++ "/" ++ showMat showRat l
+
+/-- constructors -/
+def parseCtor (r : List String) : Option (Except Err (Game Rat)) :=
+  match kv r "ctor" with
+  | some "prof" => do
+    let shape ← kvNats r "shape"
+    let data ← kvRats r "data"
+    if data.length ≠ prod shape then none
+    else pure (Game.ofProfileArray ⟨shape, data⟩)
+  | some "zeros" => do
+    let nums ← kvNats r "nums"
+    pure (.ok (Game.zeros nums))
+  | some "sym" => do
+    let n ← kvNat r "n"
+    let data ← kvRats r "data"
+    if data.length ≠ n * n then none else pure (Game.ofSquare ⟨[n, n], data⟩)
+  | some "players" => do
+    let shapes ← kvNatMat r "shapes"
+    let datas ← kvRatMat r "datas"
+    if shapes.length ≠ datas.length then none
+    else if (List.zip shapes datas).any (fun sd => sd.2.length != prod sd.1) then none
+    else
+      let ps : List (Arr Rat) := (List.zip shapes datas).map fun sd => ⟨sd.1, sd.2⟩
+      if ps.all Game.playerOk then pure (Game.ofPlayers ps) else pure (.error .value)
+  | some "gam" => do
+    let nums ← kvNats r "nums"
+    let data ← kvRats r "data"
+    pure (parseGam nums data)
+  | some "poly" => do
+    let nums ← kvNats r "nums"
+    let mats ← kvRatMat r "mats"   -- pairs (i,j), i ≠ j, in lexicographic order
+    let Nn := nums.length
+    if mats.length ≠ Nn * (Nn - 1) then none
+    else
+      let pm := fun (i j : Nat) => mats.getD (i * (Nn - 1) + (if j < i then j else j - 1)) []
+      pure (.ok (ofPolymatrix nums pm))
+  | _ => none
+
+def handle (toks : List String) : String :=
+  match toks with
+  | "run" :: r =>
+    match parseCtor r, kv r "ops" with
+    | some (.error e), _ => e.show
+    | some (.ok g), some opss =>
+      let ops? := if opss = "-" then some [] else (opss.splitOn "|").mapM parseOp?
+      match ops? with
+      | none => "bad-op"
+      | some ops =>
+        let res := run g ops
+        "|".intercalate (("-#" ++ showGame g) :: res.map fun og => showOut og.1 ++ "#" ++ showGame og.2)
+    | _, _ => "bad-op"
+  | _ => "bad-op"
 
 end QE.C14
